@@ -42,7 +42,8 @@ function partA(ctx) {
     if (d[0] !== d[1] || cut(d[0], extT) === null || cut(d[0], extT) !== cut(sd[0], extS)) { report.violation(`import, include and wxs resolve the same reference differently: ${JSON.stringify(d)} / ${JSON.stringify(sd)}`, { base, rel, suffix }); continue }
     // a referrer whose own last segment is `.` / `..` names a directory, not a file: its "directory" is not defined
     const baseLast = base.split('/').pop()
-    if (hasEmpty(base) || hasEmpty(rel) || baseLast === '.' || baseLast === '..') { report.count('A_consistency_only'); continue }
+    // (so does a referrer path with empty segments; in the reference itself an empty segment, as in `x//y`, names nothing)
+    if (hasEmpty(base) || baseLast === '.' || baseLast === '..') { report.count('A_consistency_only'); continue }
     // (a last segment `.`/`..` followed by a kept suffix is an ordinary name such as `..wxml`)
     const relLast = rel.split('/').pop()
     if (extT && (relLast === '.' || relLast === '..')) { report.count('A_consistency_only'); continue }
@@ -76,6 +77,8 @@ function spellRef(rng, from, to, suffix) {
     if (r === 3) s = toSegs.length - i > 1 && up === 0 ? toSegs.slice(i, -1).join('/') + '/./' + toSegs[toSegs.length - 1] : './' + s
     if (r === 4) s = '../'.repeat(fromDir.length + 2) + to // clamped at the root
   }
+  // (an empty segment names nothing: `x//y` is `x/y`)
+  if (rng.bool(0.1) && s.includes('/')) { const k = s.indexOf('/', rng.int(s.length)); if (k >= 0) s = s.slice(0, k) + '/' + s.slice(k) }
   return rng.bool(0.5) ? s + suffix : s
 }
 
